@@ -15,6 +15,16 @@ Proof.
   - sd_cases H; close2.
 Qed.
 
+Lemma pres_appx : forall s c s' l, Inv s -> step s c = Some (s', l) -> io s' = IoRCappX -> reqs s' = [].
+Proof.
+  intros s c s' l I H. pose proof (i_appx s I) as M.
+  pose proof (i_lock_io s I) as LI.
+  destruct c as [e|w e|]; simpl in H.
+  - destruct (i_mret s I) as [MR|MR]; io_cases H; close2.
+  - pose proof (i_lock_wk s I w) as LW. wk_cases H; close2.
+  - sd_cases H; close2.
+Qed.
+
 Lemma pres_mret : forall s c s' l, Inv s -> step s c = Some (s', l) -> mret s' = IoTop \/ mret s' = IoSel.
 Proof.
   intros s c s' l I H. pose proof (i_mret s I) as M.
@@ -76,7 +86,7 @@ Lemma closed_pres : forall s c s' l, Inv s -> Closed s -> step s c = Some (s', l
   conn s' = false \/ Closed s'.
 Proof.
   intros s c s' l I C H. unfold Closed, flags_ok in *.
-  destruct C as (F & (N1 & N2 & N3) & Q & ST & C2).
+  destruct C as (F & (N1 & N2 & N3 & N4 & N5) & Q & ST & C2).
   destruct c as [e|w e|]; simpl in H.
   - destruct (i_mret s I) as [MR|MR]; destruct C2 as [R|[w0 C2]]; io_cases H; prep;
     first [ t_closed ST | leftover ].
@@ -89,6 +99,30 @@ Proof.
       wsplit w0 w; wk_cases H; prep; first [ t_closed ST | leftover ].
   - destruct C2 as [R|[w0 C2]]; sd_cases H; prep; first [ t_closed ST | leftover ].
 Qed.
+
+(* Closed is stable outright *)
+Ltac t_closed2 ST := first [ solve [contra]
+  | split; [t_flags | split; [t_nots | split; [ solve [assumption | reflexivity] | split; [t_starter ST | t_c2]]]]
+  | solve [exfalso; intuition (try congruence; try discriminate; try lockc)] ].
+
+Lemma closed_stable : forall s c s' l, Inv s -> Closed s -> step s c = Some (s', l) ->
+  Closed s'.
+Proof.
+  intros s c s' l I C H. unfold Closed, flags_ok in *.
+  destruct C as (F & (N1 & N2 & N3 & N4 & N5) & Q & ST & C2).
+  destruct c as [e|w e|]; simpl in H.
+  - destruct (i_mret s I) as [MR|MR]; destruct C2 as [R|[w0 C2]]; io_cases H; prep;
+    first [ t_closed2 ST | leftover ].
+  - pose proof (i_lock_wk s I w) as LW. pose proof (ST w) as STw.
+    destruct C2 as [R|[w0 C2]].
+    + wk_cases H; prep; first [ t_closed2 ST | leftover ].
+    + pose proof (i_lock_wk s I w0) as LW0. 
+      assert (HW0 : wk_holds (wk s w0) = true) by (destruct (wk s w0); simpl in *; congruence).
+      rewrite HW0 in LW0.
+      wsplit w0 w; wk_cases H; prep; first [ t_closed2 ST | leftover ].
+  - destruct C2 as [R|[w0 C2]]; sd_cases H; prep; first [ t_closed2 ST | leftover ].
+Qed.
+
 
 Lemma conn_mono : forall s c s' l, step s c = Some (s', l) -> conn s = false -> conn s' = false.
 Proof.
@@ -115,6 +149,29 @@ Proof.
     destruct (wk s w); simpl in *; auto; exfalso; apply RW; auto.
 Qed.
 
+(* the worker's close decision (WClose1: close_when_flushed := True under requests_lock) closes *)
+Lemma worker_close_closes : forall s w k, Inv s -> wk s w = WClose1 k ->
+  Closed (set_wk (decide (set_cwf s true) DWorkerClose) w (WClose2 k)).
+Proof.
+  intros s w k I Heqw0. unfold Closed, flags_ok, decide; simpl.
+  assert (A : active (wk s w) = true) by (rewrite Heqw0; reflexivity).
+  assert (HL : rlock s = Some (ByW w)) by (apply (i_lock_wk s I w); rewrite Heqw0; reflexivity).
+  pose proof (i_lock_io s I) as LI.
+  assert (NH : io_holds (io s) = false).
+  { destruct (io_holds (io s)) eqn:E; auto. destruct LI as [_ LI]. specialize (LI eq_refl). congruence. }
+  split; [left; reflexivity|].
+  split; [repeat split; intro E; rewrite E in NH; discriminate|].
+  split.
+  { pose proof (i_q1 s I) as Q1. pose proof (i_q_excl s I) as QX.
+    destruct (queue s) as [|[|n]]; auto; [|lia].
+    destruct (QX eq_refl) as [QA _]. specialize (QA w). congruence. }
+  split.
+  { intro w1. destruct (Nat.eqb_spec w1 w); [reflexivity|].
+    destruct (starter (wk s w1)) eqn:S1; auto. exfalso. apply n.
+    apply (i_act_uniq s I); auto. destruct (wk s w1); simpl in *; auto; discriminate. }
+  right. exists w. rewrite Nat.eqb_refl. reflexivity.
+Qed.
+
 Lemma pres_safe : forall s c s' l, Inv s -> step s c = Some (s', l) ->
   gdec s' = true -> conn s' = false \/ Closed s' \/ sd s' = SdC2.
 Proof.
@@ -133,22 +190,6 @@ Proof.
         right; left; split; [reflexivity | discriminate].
     + wk_cases H; prep; try congruence; try solve [heavy].
       (* WClose1: the worker's close decision *)
-      right; left. unfold Closed, flags_ok; simpl.
-      assert (A : active (wk s w) = true) by (rewrite Heqw0; reflexivity).
-      assert (HL : rlock s = Some (ByW w)) by (apply (i_lock_wk s I w); rewrite Heqw0; reflexivity).
-      pose proof (i_lock_io s I) as LI.
-      assert (NH : io_holds (io s) = false).
-      { destruct (io_holds (io s)) eqn:E; auto. destruct LI as [_ LI]. specialize (LI eq_refl). congruence. }
-      split; [left; reflexivity|].
-      split; [repeat split; intro E; rewrite E in NH; discriminate|].
-      split.
-      { pose proof (i_q1 s I) as Q1. pose proof (i_q_excl s I) as QX.
-        destruct (queue s) as [|[|n]]; auto; [|lia].
-        destruct (QX eq_refl) as [QA _]. specialize (QA w). congruence. }
-      split.
-      { intro w1. destruct (Nat.eqb_spec w1 w); [reflexivity|].
-        destruct (starter (wk s w1)) eqn:S1; auto. exfalso. apply n.
-        apply (i_act_uniq s I); auto. destruct (wk s w1); simpl in *; auto; discriminate. }
-      right. exists w. rewrite Nat.eqb_refl. reflexivity.
+      right; left. apply (worker_close_closes s w sid I Heqw0).
     + sd_cases H; prep; try congruence; solve [heavy].
 Qed.
